@@ -130,10 +130,10 @@ func buildDoc(scopes []string, sp docSpec) (*trustpolicy.OCIDocument, map[string
 }
 
 type ociCase struct {
-	Kind   string  `json:"kind"`
+	Kind   string   `json:"kind"`
 	Scopes []string `json:"scopes"`
-	Doc    docSpec `json:"doc"`
-	Ref    ref     `json:"ref"`
+	Doc    docSpec  `json:"doc"`
+	Ref    ref      `json:"ref"`
 }
 
 // checkSelect evaluates one (document, reference) pair; returns "" or a violation (key, text).
